@@ -471,7 +471,7 @@ proof fn lemma_round_trip(x: i64, radix: int, out: Seq<char>)
 # ------------------------------------------------------------------------------------------------
 TGT_SAME = "final(ctx).target == old(ctx).target"
 UNITS["v_target_ops"] = dict(
-    prop=["C17", "C06", "C07", "C16"], tier="q", prelude=["interp.rs", "target.rs"], native_witness={"C17": ["target_faults"]},
+    prop=["C17", "C06", "C07", "C16", "C08"], tier="q", prelude=["interp.rs", "target.rs"], native_witness={"C17": ["target_faults"]},
     fns=[
         dict(id="external_path", file=EXPR + "query.rs", impl="impl Query", name="external_path",
              orig_sig="fn external_path(&self) -> Option<OwnedTargetPath>",
@@ -484,6 +484,8 @@ UNITS["v_target_ops"] = dict(
              wrap=("impl Query {", "}"), sig=VSIG,
              rewrites=[dict(**{"from": "use Target::{Container, External, FunctionCall, Internal};", "to": "use crate::QueryTarget::{Container, External, FunctionCall, Internal};", "why": "prelude name of query::Target"})],
              ensures=[
+                 ("C16.query.reads_own_path", "the only event/metadata location an external query reads is its own prefix and path (the one compile_query reports)",
+                  "self.target is External ==> r == Ok::<Value, ExpressionError>(read_as_missing(old(ctx).target.spec_get(OwnedTargetPath { prefix: self.target->External_0, path: self.path })))"),
                  ("C17.query.read_fault_is_missing", "an external query yields the target's value, and null both for a missing field and for a rejected read; it never fails",
                   "self.target is External ==> r == Ok::<Value, ExpressionError>(read_as_missing(old(ctx).target.spec_get(OwnedTargetPath { prefix: self.target->External_0, path: self.path })))"),
                  ("C17.query.no_target_write", "an external query performs no target write or deletion and evaluates nothing",
@@ -498,6 +500,8 @@ UNITS["v_target_ops"] = dict(
              ensures=[
                  ("C17.del.fault_is_null", "deleting an external path yields the removed value, and null when nothing was there or the target rejected the deletion; it never fails",
                   "query.target is External ==> final(ctx).target.ops@.len() == old(ctx).target.ops@.len() + 1 && final(ctx).target.ops@.last() is Remove && r == Ok::<Value, ExpressionError>(match final(ctx).target.ops@.last()->Remove_2 { Ok(Some(v)) => v, _ => Value::Null })"),
+                 ("C16.del.removes_own_path", "del removes exactly the query's own prefix and path (reported as a query by compile_query)",
+                  "query.target is External ==> final(ctx).target.ops@ == old(ctx).target.ops@.push(final(ctx).target.ops@.last()) && final(ctx).target.ops@.last()->Remove_0 == (OwnedTargetPath { prefix: query.target->External_0, path: query.path }) && final(ctx).target.ops@.last()->Remove_1 == compact"),
                  ("C17.del.one_op", "exactly one target removal, on the query's own path, with the requested compaction; no retry and no other target operation",
                   "query.target is External ==> final(ctx).target.ops@ == old(ctx).target.ops@.push(final(ctx).target.ops@.last()) && final(ctx).target.ops@.last()->Remove_0 == (OwnedTargetPath { prefix: query.target->External_0, path: query.path }) && final(ctx).target.ops@.last()->Remove_1 == compact"),
                  ("C17.del.internal_no_target", "deleting from a variable or an expression never touches the target",
@@ -510,6 +514,8 @@ UNITS["v_target_ops"] = dict(
              rewrites=[dict(**{"from": r"Ok\(((?:(?!Ok\().)*?)\.is_some\(\)\s*\.into\(\)\)", "to": r"Ok(Value::Boolean(\1.is_some()))", "regex": True, "why": "From<bool> for Value"}),
                        dict(**{"from": "Ok(false.into())", "to": "Ok(Value::Boolean(false))", "why": "From<bool> for Value"})],
              ensures=[
+                 ("C16.exists.reads_own_path", "exists reads exactly the query's own prefix and path",
+                  "query.target is External ==> r == Ok::<Value, ExpressionError>(Value::Boolean(old(ctx).target.spec_get(OwnedTargetPath { prefix: query.target->External_0, path: query.path }) is Ok && old(ctx).target.spec_get(OwnedTargetPath { prefix: query.target->External_0, path: query.path })->Ok_0 is Some))"),
                  ("C17.exists.fault_is_missing", "exists() on an external path is true exactly when the read succeeds with a value: a rejected read counts as missing; it never fails",
                   "query.target is External ==> r == Ok::<Value, ExpressionError>(Value::Boolean(old(ctx).target.spec_get(OwnedTargetPath { prefix: query.target->External_0, path: query.path }) is Ok && old(ctx).target.spec_get(OwnedTargetPath { prefix: query.target->External_0, path: query.path })->Ok_0 is Some))"),
                  ("C17.exists.no_write", "exists() performs no target write or deletion", "query.target is External || query.target is Internal ==> final(ctx).target.ops@ == old(ctx).target.ops@"),
@@ -520,6 +526,8 @@ UNITS["v_target_ops"] = dict(
              sig="pub fn unnest(path: &Query, ctx: &mut Context) -> (r: Resolved)",
              rewrites=[dict(**{"from": "expression::Target::", "to": "QueryTarget::", "why": "prelude name of query::Target"})],
              ensures=[
+                 ("C16.unnest.reads_root_of_prefix", "unnest reads the root of the query's prefix (an ancestor of the reported query path)",
+                  "path.target is External ==> r == spec_unnest_root(read_as_missing(old(ctx).target.spec_get(OwnedTargetPath::root_spec(path.target->External_0))), path.path)"),
                  ("C17.unnest.read_fault_is_missing", "unnest of an external path treats a rejected (or empty) read of the root exactly like a null root: it never panics",
                   "path.target is External ==> r == spec_unnest_root(read_as_missing(old(ctx).target.spec_get(OwnedTargetPath::root_spec(path.target->External_0))), path.path)"),
                  ("C17.unnest.no_write", "unnest performs no target write or deletion", "path.target is External || path.target is Internal ==> final(ctx).target.ops@ == old(ctx).target.ops@"),
@@ -531,6 +539,8 @@ UNITS["v_target_ops"] = dict(
              rewrites=[dict(**{"from": "use Target::{External, Internal, Noop};", "to": "use crate::ATarget::{External, Internal, Noop};", "why": "prelude name of assignment::Target"}),
                        dict(**{"from": "drop(ctx.target_mut().target_insert(path, value));", "to": "let _ = ctx.target_mut().target_insert(path, value);", "why": "drop(x) == let _ = x for a Result<(), String>"})],
              ensures=[
+                 ("C16.assign.writes_own_path", "an external assignment writes exactly its own target path (the one Assignment::targets reports)",
+                  "self is External ==> final(ctx).target.ops@.len() == old(ctx).target.ops@.len() + 1 && final(ctx).target.ops@ == old(ctx).target.ops@.push(final(ctx).target.ops@.last()) && final(ctx).target.ops@.last() is Insert && final(ctx).target.ops@.last()->Insert_0 == self->External_0 && final(ctx).target.ops@.last()->Insert_1 == value && final(ctx).state == old(ctx).state"),
                  ("C17.assign.one_write", "an external assignment performs exactly one target insert of the value at its own path; a rejected write is not retried or redirected, and the variable store is untouched",
                   "self is External ==> final(ctx).target.ops@.len() == old(ctx).target.ops@.len() + 1 && final(ctx).target.ops@ == old(ctx).target.ops@.push(final(ctx).target.ops@.last()) && final(ctx).target.ops@.last() is Insert && final(ctx).target.ops@.last()->Insert_0 == self->External_0 && final(ctx).target.ops@.last()->Insert_1 == value && final(ctx).state == old(ctx).state"),
                  ("C17.assign.internal_no_target", "assigning to a variable or to `_` never touches the target",
@@ -679,5 +689,33 @@ UNITS["v_op_constant"] = dict(
                   "(self.opcode is Mul || self.opcode is Div || self.opcode is Add || self.opcode is Sub) && added(%s, %s) == 2 && outcome(nth(%s, %s, 0)) is Ok && outcome(nth(%s, %s, 1)) is Ok && spec_arith(self.opcode, outcome(nth(%s, %s, 0))->Ok_0, outcome(nth(%s, %s, 1))->Ok_0) is Ok ==> r == Ok::<Value, ExpressionError>(spec_arith(self.opcode, outcome(nth(%s, %s, 0))->Ok_0, outcome(nth(%s, %s, 1))->Ok_0)->Ok_0)" % ((PRE, POST) * 7)),
              ],
              safety_id="C12.op_resolve_arith.safety"),
+    ],
+)
+
+# ------------------------------------------------------------------------------------------------
+UNITS["v_reported_paths"] = dict(
+    prop=["C16"], tier="q", prelude=["compiler_q.rs"],
+    fns=[
+        dict(id="compile_query", file="src/compiler/compiler.rs", impl="impl<'a> Compiler<'a>", name="compile_query",
+             orig_sig="fn compile_query(&mut self, node: Node<ast::Query>, state: &mut TypeState) -> Option<Query>",
+             wrap=("impl Compiler {", "}"), sig="pub fn compile_query(&mut self, node: Node<AstQuery>, state: &mut TypeState) -> (r: Option<Query>)",
+             rewrites=[dict(**{"from": "ast::Query {", "to": "AstQuery {", "why": "prelude name of ast::Query"})],
+             ensures=[
+                 ("C16.compile_query.reports_external", "every query on the event or metadata that the compiler produces is reported, with exactly the prefix and path the query will read at runtime",
+                  "r is Some && r->Some_0.target is External ==> final(self).external_queries@.len() > old(self).external_queries@.len() && final(self).external_queries@.last() == (OwnedTargetPath { prefix: r->Some_0.target->External_0, path: r->Some_0.path })"),
+                 ("C16.compile_query.monotone", "no previously reported query or assignment is dropped",
+                  "old(self).external_queries@.len() <= final(self).external_queries@.len() && (forall|i: int| 0 <= i < old(self).external_queries@.len() ==> final(self).external_queries@[i] == old(self).external_queries@[i]) && final(self).external_assignments == old(self).external_assignments"),
+             ],
+             safety_id="C16.compile_query.safety"),
+        dict(id="assignment_targets", file="src/compiler/expression/assignment.rs", impl="impl Assignment", name="targets",
+             orig_sig="fn targets(&self) -> Vec<Target>",
+             wrap=("impl Assignment {", "}"), sig="pub fn targets(&self) -> (r: Vec<ATarget>)",
+             rewrites=[dict(**{"from": "Variant::Single", "to": "AVariant::Single", "why": "prelude name"}),
+                       dict(**{"from": "Variant::Infallible", "to": "AVariant::Infallible", "why": "prelude name"})],
+             ensures=[
+                 ("C16.targets.complete", "targets() lists every target the assignment writes at runtime: the single target, or both the ok and the err target",
+                  "(match self.variant { AVariant::Single { target, expr } => r@ == seq![target], AVariant::Infallible { ok, err, expr, default } => r@ == seq![ok, err] })"),
+             ],
+             safety_id="C16.targets.safety"),
     ],
 )
